@@ -10,6 +10,7 @@ Open Scope Z_scope.
 Section RunAll.
 Variable p : program.
 Variable rk : node -> nat.
+Variable sB : state.
 Hypothesis Hrk : forall n e d, alookup p n = Some e -> In d (expr_reads e) -> (rk d < rk n)%nat.
 Hypothesis Hproj : forall n e d, alookup p n = Some e -> nkind n = KProjection -> In d (expr_reads e) ->
   is_fw_or_proj (nkind d) = true.
@@ -66,16 +67,16 @@ Lemma no_group_sub_top : forall e, no_group e = true -> no_group_top e = true.
 Proof. intros e H. destruct e; try reflexivity. discriminate. Qed.
 
 (** ** the executor *)
-Lemma msound_eval_step : forall f, msound_query p rk f -> msound_eval p rk f -> msound_eval p rk (S f).
+Lemma msound_eval_step : forall f, msound_query p rk sB f -> msound_eval p rk sB f -> msound_eval p rk sB (S f).
 Proof.
   intros f IHq IHe.
   destruct (mmono_all p Hng f) as (Mq & Mx & Me & Mr & Mb).
   assert (Hbin : forall inp X stk n pd prev a b op fr s o fr' ms s',
-            MInv p rk X inp s -> no_group a = true -> no_group b = true ->
+            MInv p rk sB X inp s -> no_group a = true -> no_group b = true ->
             (forall d, In d (expr_reads a ++ expr_reads b) -> StkOk rk stk d /\ (rk d < rk n)%nat /\ nkind d <> KExternal) ->
             MFrOk rk s n fr -> (pd = true \/ MPrevOK s prev) -> (pd = true \/ X = []) ->
             mbin p f stk (CQuery n true pd prev) a b op fr s = Ok (o, fr', ms, s') ->
-            MInv p rk X inp s' /\ MKeeps s s' /\ ms = [] /\ MFrOk rk s' n fr' /\
+            MInv p rk sB X inp s' /\ MKeeps s s' /\ ms = [] /\ MFrOk rk s' n fr' /\
             (forall d x, frR fr d x -> frR fr' d x) /\
             exists x y l1 l2, o = EVal (op x y) /\ evr (frR fr') a x l1 /\ evr (frR fr') b y l2 /\
               (forall d, In d (map fst (fr_callees fr')) <-> In d (map fst (fr_callees fr)) \/ In d (l1 ++ l2))).
@@ -105,7 +106,7 @@ Proof.
     destruct (Hstk n0 (or_introl eq_refl)) as (Hs0 & Hr0 & Hk0).
     assert (Hpre : MFrPre rk (CQuery n true pd prev) (Some fr) n0 s).
     { split; [exact Hr0|]. exists fr. auto. }
-    assert (HIa : MInv p rk (X ++ []) inp s) by (rewrite app_nil_r; exact HI).
+    assert (HIa : MInv p rk sB (X ++ []) inp s) by (rewrite app_nil_r; exact HI).
     destruct (IHq inp X [] stk (CQuery n true pd prev) (Some fr) n0 s o1 fr1 m1 s1 HIa Hs0 (fun K => ltac:(discriminate K))
                 Hk0 Hpd Hpre Hpx (or_introl eq_refl) E1) as (HI1 & K1 & -> & i & Hi & Hv & Ho & Hf).
     specialize (K1 eq_refl).
@@ -164,7 +165,7 @@ Proof.
 Qed.
 
 (** ** repair *)
-Lemma msound_repair_step : forall f, msound_query p rk f -> msound_execute p rk f -> msound_repair p rk (S f).
+Lemma msound_repair_step : forall f, msound_query p rk sB f -> msound_execute p rk sB f -> msound_repair p rk sB (S f).
 Proof.
   intros f IHq IHx.
   destruct (mmono_all p Hng f) as (Mq & Mx & Me & Mr & Mb).
@@ -174,7 +175,7 @@ Proof.
     as [[[[d fr1] marks] s1]| | |] eqn:Ew; try discriminate.
   assert (HW0 : MWalkInv s i (all_callees (i_fwd i)) false []).
   { split; [intros x []| |discriminate]. intros x Hx Hn. contradiction. }
-  destruct (msound_walk p rk Hrk Hng f inp X n stk (x_pedantic c) i IHq Hstk (all_callees (i_fwd i)) false [] empty_frame [] s d fr1 marks s1
+  destruct (msound_walk p rk sB Hrk Hng f inp X n stk (x_pedantic c) i IHq Hstk (all_callees (i_fwd i)) false [] empty_frame [] s d fr1 marks s1
               HI Eg Hnv Hnp (fun x Hx => Hx) eq_refl eq_refl eq_refl HW0 Ew)
     as (HI1 & K1 & -> & Hscc & Htfc & Hd).
   pose proof (mmono_walk p f n stk _ i Mq _ _ _ _ _ _ _ _ _ _ Ew) as M1.
@@ -191,7 +192,7 @@ Proof.
     assert (Hfe : FrEmpty (fr_clear fr1)).
     { unfold FrEmpty, fr_clear. cbn. auto. }
     assert (Hkx : nkind n <> KExternal).
-    { destruct (mstored_kind _ _ _ _ _ _ _ _ HI Eg) as [Kc|[Kc|[Kc|Kc]]]; rewrite Kc; discriminate. }
+    { destruct (mstored_kind _ _ _ _ _ _ _ _ _ HI Eg) as [Kc|[Kc|[Kc|Kc]]]; rewrite Kc; discriminate. }
     assert (Hpx : x_pedantic c = true \/ X = []) by (destruct Hnp as [Hp|[Hp _]]; auto).
     assert (Hnp1 : x_pedantic c = true \/ TfcOK s1 n).
     { destruct Hnp as [Hp|[_ Hp]]; [left; exact Hp|right; eapply TfcOK_mono; eauto]. }
@@ -207,17 +208,17 @@ Proof.
     assert (Hcl : forall x, In x cl -> In x (old_fwd s1 n) /\ (nkind x = KInput \/ sverified s1 x)).
     { intros x Hx. unfold old_fwd. rewrite Hi1. apply W1. exact Hx. }
     assert (HnX : ~ In n X).
-    { intro Hin. destruct (mi_X _ _ _ _ _ _ HI n Hin) as [_ [K|K]]; [contradiction|].
+    { intro Hin. destruct (mi_X _ _ _ _ _ _ _ HI n Hin) as [_ [K|K]]; [contradiction|].
       assert (K1s : StaleX s1 n) by (eapply StaleX_mono; eauto).
       destruct K1s as (cal & i0 & ci & v & t & A & B & C & D & E). assert (i0 = i) by congruence. subst i0.
       assert (Hc : In cal (all_callees (i_fwd i))) by (eapply mi_obs_fwd; eauto).
       destruct (W2 cal Hc (fun K0 => K0)) as ((j & v0 & t0 & A1 & A2 & A3) & _). apply E. congruence. }
     assert (Hres : forall nt,
               (nt = None -> rtfc = false) -> (forall t, nt = Some t -> t = new_tfc_of s1 i /\ rtfc = true) ->
-              MInv p rk X inp (clean_query s1 n cl nt) /\ MKeeps s (clean_query s1 n cl nt) /\
+              MInv p rk sB X inp (clean_query s1 n cl nt) /\ MKeeps s (clean_query s1 n cl nt) /\
               sverified (clean_query s1 n cl nt) n).
     { intros nt Hn0 Hn2.
-      destruct (MInv_clean p rk Hrk X inp s1 n i cl nt HI1 Hi1 Hnv1 Hcl Hall) as [A B].
+      destruct (MInv_clean p rk sB Hrk X inp s1 n i cl nt HI1 Hi1 Hnv1 Hcl Hall) as [A B].
       - intros -> x Hx. unfold old_fwd in Hx. rewrite Hi1 in Hx.
         destruct (W2 x Hx (fun K => K)) as ((j & v & t & A1 & A2 & A3) & _ & _ & D).
         exists i, j, v, t. split; [exact Hi1|]. split; [exact A1|]. split; [exact A2|]. split; [exact A3|].
@@ -234,8 +235,8 @@ Proof.
         + eexists. rewrite (clean_query_get _ _ _ _ _ _ Hi1), node_eqb_refl. split; [reflexivity|].
           unfold cq_info. cbn [i_verified]. rewrite clean_query_ts. reflexivity. }
     assert (Hfin : forall nt s2, s2 = clean_query s1 n cl nt ->
-              MInv p rk X inp s2 /\ MKeeps s s2 /\ sverified s2 n ->
-              XPost p rk X inp c n s2 /\ MKeeps s s2 /\ @nil node = []).
+              MInv p rk sB X inp s2 /\ MKeeps s s2 /\ sverified s2 n ->
+              XPost p rk sB X inp c n s2 /\ MKeeps s s2 /\ @nil node = []).
     { intros nt s2 -> (A & B & C). split; [|auto]. exists []. rewrite app_nil_r.
       split; [exact A|]. split; [auto|]. split; [auto|]. split; [intros y []|exact C]. }
     destruct rtfc.
@@ -245,17 +246,17 @@ Proof.
 Qed.
 
 (** ** the backward projections *)
-Lemma msound_backward_step : forall f, msound_query p rk f -> msound_backward p rk (S f).
+Lemma msound_backward_step : forall f, msound_query p rk sB f -> msound_backward p rk sB (S f).
 Proof.
   intros f IHq. red. intros inp X Y n s s' HI Hv HY H. rewrite backward_S in H. cbv zeta in H.
   destruct (mbp p f [] (proj_callers s n) s) as [s1| | |] eqn:Eb; try discriminate. inversion H. subst s'. clear H.
   assert (Hk : forall q, In q (proj_callers s n) -> nkind q = KProjection).
   { intros q Hq. unfold proj_callers in Hq. apply filter_In in Hq. apply kind_eqb_eq. apply Hq. }
-  destruct (msound_bp p rk Hng f inp (X ++ Y) IHq _ _ _ HI Hk Eb) as (HI1 & M1 & V1).
-  assert (HI2 : MInv p rk X inp s1) by (eapply MInv_close; [exact HI1|]; intros y Hy; apply V1; apply HY; exact Hy).
+  destruct (msound_bp p rk sB Hng f inp (X ++ Y) IHq _ _ _ HI Hk Eb) as (HI1 & M1 & V1).
+  assert (HI2 : MInv p rk sB X inp s1) by (eapply MInv_close; [exact HI1|]; intros y Hy; apply V1; apply HY; exact Hy).
   assert (Hv1 : sverified s1 n) by (eapply sverified_mono; eauto).
   destruct Hv1 as [i [Hi Hvi]]. unfold clear_pending. rewrite Hi.
-  destruct (MInv_pending p rk _ X inp s1 n i (mkInfo (i_verified i) (i_value i) (i_tfc i) (i_fwd i) (i_obs i) None) HI2 Hi)
+  destruct (MInv_pending p rk sB _ X inp s1 n i (mkInfo (i_verified i) (i_value i) (i_tfc i) (i_fwd i) (i_obs i) None) HI2 Hi (ex_intro _ i (conj Hi Hvi)))
     as [A _]; [repeat split|].
   split; [exact A|]. split.
   - eexists. rewrite get_put_eq. split; [reflexivity|]. exact Hvi.
@@ -270,12 +271,12 @@ Definition Dirt (X' : list node) (s : state) (n : node) : Prop :=
 Lemma sdirty_dec : forall s a b, sdirty s a b \/ ~ sdirty s a b.
 Proof. intros s a b. unfold sdirty. destruct (in_dec edge_dec (a, b) (s_dirty s)); auto. Qed.
 
-Lemma Dirt_of_Stale : forall Ex X X' inp s n, MInvE p rk Ex X inp s -> Stale s n -> thru n -> ~ In n X -> Dirt X' s n.
+Lemma Dirt_of_Stale : forall Ex X X' inp s n, MInvE p rk sB Ex X inp s -> Stale s n -> thru n -> ~ In n X -> Dirt X' s n.
 Proof.
   intros Ex X X' inp s n HI HS Ht HX. split.
   - intros c Hc. eapply Stale_callers_dirty; eauto.
   - intros b x a Hp Hx _ Hb Hab. destruct (sdirty_dec s a b) as [K|K]; [exact K|]. exfalso.
-    destruct (mi_C _ _ _ _ _ _ HI a b Hab K) as [_ G]. eapply Stale_not_MGoodX; [exact HS|exact HX| |exact (G Hb)].
+    destruct (mi_C _ _ _ _ _ _ _ HI a b Hab K) as [_ G]. eapply Stale_not_MGoodX; [exact HS|exact HX| |exact (G Hb)].
     eapply tpath_snoc; eauto.
 Qed.
 Lemma Dirt_of_UpDirty : forall X' s n, UpDirty s n -> Dirt X' s n.
@@ -290,7 +291,7 @@ Definition ysel (s : state) (n : node) (z : Z) (y : node) : bool :=
   end.
 Definition ywin (s : state) (n : node) (z : Z) : list node := filter (ysel s n z) (callers_of s n).
 
-Lemma Dirt_of_UpDirtyP : forall Ex X inp s n i z, MInvE p rk Ex X inp s -> get_info s n = Some i -> i_value i <> z ->
+Lemma Dirt_of_UpDirtyP : forall Ex X inp s n i z, MInvE p rk sB Ex X inp s -> get_info s n = Some i -> i_value i <> z ->
   UpDirtyP s n -> Dirt (X ++ ywin s n z) s n.
 Proof.
   intros Ex X inp s n i z HI Hi Hne [A B]. split; [exact A|].
@@ -298,44 +299,44 @@ Proof.
   assert (Hxs : exists ix, get_info s x = Some ix).
   { unfold old_fwd in Hx. destruct (get_info s x) as [ix|]; [eauto|destruct Hx]. }
   destruct Hxs as [ix Hix].
-  destruct (mstored_kind _ _ _ _ _ _ _ _ HI Hix) as [K|[K|[K|K]]].
-  - rewrite (minput_no_fwd _ _ _ _ _ _ _ HI K) in Hx. destruct Hx.
+  destruct (mstored_kind _ _ _ _ _ _ _ _ _ HI Hix) as [K|[K|[K|K]]].
+  - rewrite (minput_no_fwd _ _ _ _ _ _ _ _ HI K) in Hx. destruct Hx.
   - exfalso. destruct (tpath_last _ _ _ Hp) as [->|[z0 (_ & _ & Kt)]]; [apply Hb; exact K|apply Kt; exact K].
   - eapply B; eauto. unfold nonfw. rewrite K. reflexivity.
-  - assert (Hxc : In x (callers_of s n)) by (apply (mi_bwd _ _ _ _ _ _ HI); exact Hx).
+  - assert (Hxc : In x (callers_of s n)) by (apply (mi_bwd _ _ _ _ _ _ _ HI); exact Hx).
     assert (Hxf : In n (all_callees (i_fwd ix))) by (unfold old_fwd in Hx; rewrite Hix in Hx; exact Hx).
-    destruct (mi_obs _ _ _ _ _ _ HI x ix n Hix Hxf) as [[ov t] Ho].
+    destruct (mi_obs _ _ _ _ _ _ _ HI x ix n Hix Hxf) as [[ov t] Ho].
     destruct (Z.eq_dec ov z) as [Eo|Eo].
     + destruct (sdirty_dec s a b) as [Kd|Kd]; [exact Kd|]. exfalso.
-      destruct (mi_C _ _ _ _ _ _ HI a b Hab Kd) as [_ G]. destruct (G Hb x Hp) as [Kx|Kx].
+      destruct (mi_C _ _ _ _ _ _ _ HI a b Hab Kd) as [_ G]. destruct (G Hb x Hp) as [Kx|Kx].
       * apply HnX. apply in_or_app. left. exact Kx.
       * destruct (Kx n Hx) as (i0 & j & v & t0 & E1 & E2 & E3 & E4 & _). apply Hne. congruence.
     + exfalso. apply HnX. apply in_or_app. right. unfold ywin. apply filter_In. split; [exact Hxc|].
       unfold ysel. rewrite K, Hix, Ho. cbn [kind_eqb andb]. apply negb_true_iff. apply Z.eqb_neq. exact Eo.
 Qed.
 
-Lemma ywin_spec : forall Ex X inp s n z y, MInvE p rk Ex X inp s -> In y (ywin s n z) ->
+Lemma ywin_spec : forall Ex X inp s n z y, MInvE p rk sB Ex X inp s -> In y (ywin s n z) ->
   In y (proj_callers s n) /\ nkind y = KProjection /\ y <> n /\
   exists i ov t, get_info s y = Some i /\ alookup (i_obs i) n = Some (ov, t) /\ ov <> z.
 Proof.
   intros Ex X inp s n z y HI Hy. unfold ywin in Hy. apply filter_In in Hy. destruct Hy as [Hc Hs].
   unfold ysel in Hs. apply andb_true_iff in Hs. destruct Hs as [Hk Hs].
   split; [unfold proj_callers; apply filter_In; auto|]. apply kind_eqb_eq in Hk. split; [exact Hk|]. split.
-  - intros ->. apply (mi_bwd _ _ _ _ _ _ HI) in Hc. pose proof (mfwd_rk _ _ Hrk _ _ _ _ _ _ HI Hc). lia.
+  - intros ->. apply (mi_bwd _ _ _ _ _ _ _ HI) in Hc. pose proof (mfwd_rk _ _ Hrk _ _ _ _ _ _ _ HI Hc). lia.
   - destruct (get_info s y) as [iy|]; [|discriminate]. destruct (alookup (i_obs iy) n) as [[ov t]|] eqn:Eo; [|discriminate].
     exists iy, ov, t. split; [reflexivity|]. split; [exact Eo|]. apply negb_true_iff in Hs. apply Z.eqb_neq. exact Hs.
 Qed.
 
-Lemma NVabove_of_notSolid : forall Ex X inp s n, MInvE p rk Ex X inp s -> ~ MSolid s n -> ~ sverified s n -> NVabove s n.
+Lemma NVabove_of_notSolid : forall Ex X inp s n, MInvE p rk sB Ex X inp s -> ~ MSolid s n -> ~ sverified s n -> NVabove s n.
 Proof.
   intros Ex X inp s n HI HS Hnv b x Hp Hx Hb.
-  pose proof (MSolid_path _ _ _ (verified_Solid _ _ _ _ _ _ _ HI Hb) Hp) as Sx.
+  pose proof (MSolid_path _ _ _ (verified_Solid _ _ _ _ _ _ _ _ HI Hb) Hp) as Sx.
   destruct (fw_or_thru n) as [K|K].
   - apply Hnv. apply (proj2 Sx). apply mreach_direct; assumption.
   - apply HS. eapply MSolid_step; eauto.
 Qed.
 
-Lemma msound_execute_step : forall f, msound_eval p rk f -> msound_execute p rk (S f).
+Lemma msound_execute_step : forall f, msound_eval p rk sB f -> msound_execute p rk sB (S f).
 Proof.
   intros f IHe. destruct (mmono_all p Hng f) as (Mq & Mx & Me & Mr & Mb).
   red. intros inp X stk c n rc fr0 s ms s' HI Hstk Hroot Hkx Hfr0 Hnv Hpx Hrc H.
@@ -349,7 +350,17 @@ Proof.
       (destruct (alookup p n) as [e|]; [|discriminate]); exists e; auto. }
   destruct Hb as [e (He & Hev0)]. clear Ee.
   pose proof (Hkeys n e He) as Hk. pose proof (Hng n e He) as Hge.
-  assert (HI0 : MInv p rk X inp s0) by (apply MInv_log; exact HI).
+  assert (HJn : JustAt p sB inp n).
+  { destruct (mi_U _ _ _ _ _ _ _ HI n) as [K|K]; [contradiction|].
+    destruct Hrc as [(_ & (cal & i & ci & v & t & A & B & C & D & Sc & E) & _)|[_ Hn]].
+    - right. exists i, cal, v. split; [congruence|]. split; [exists t; exact C|].
+      intro Hsp. apply E.
+      assert (Hcur : MSpecI p inp cal (i_value ci)).
+      { destruct Sc as [[j [J1 J2]]|Sc]; [assert (j = ci) by congruence; subst j; eapply mi_V; eauto|].
+        eapply (MSolid_value p rk Hrk _ _ _ _ _ HI (S (rk cal))); eauto. }
+      eapply MSpecI_det; eauto.
+    - left. congruence. }
+  assert (HI0 : MInv p rk sB X inp s0) by (apply MInv_log_push; assumption).
   assert (Hreads : forall d, In d (expr_reads e) -> StkOk rk (n :: stk) d /\ (rk d < rk n)%nat /\ nkind d <> KExternal).
   { intros d Hd. pose proof (Hrk _ _ _ He Hd). split; [apply StkOk_lower; assumption|]. split; [assumption|]. eapply Htgt; eauto. }
   destruct Hfr0 as (F1 & F2 & F3 & F4 & F5).
@@ -367,7 +378,7 @@ Proof.
     - left. exact Hp.
     - right. intros d t Hd. destruct (get_info s n) as [i|] eqn:Hi.
       + destruct (mfx_prev_lookup _ _ _ _ _ Hi Hd) as [v Ho].
-        destruct (mi_tfc _ _ _ _ _ _ HI n i d v t Hi Ho) as [T1 T2]. split.
+        destruct (mi_tfc _ _ _ _ _ _ _ HI n i d v t Hi Ho) as [T1 T2]. split.
         * intro K. apply (HT i Hi). apply T1. exact K.
         * intros K F HF. apply (HT i Hi). apply T2; assumption.
       + unfold fx_prev in Hd. rewrite Hi in Hd. discriminate.
@@ -386,13 +397,13 @@ Proof.
   { intros [j [J1 J2]]. apply Hnv. exists j. rewrite <- Hn1, <- Hts1. auto. }
   assert (HS1 : rc = true -> MStaleV s1 n).
   { intros ->. destruct Hrc as [(_ & HS & _)|[Hc _]]; [|discriminate].
-    eapply (MStaleV_mono p rk _ _ inp (n :: stk) s0 s1 n HI0 M01 K01 Hn1).
+    eapply (MStaleV_mono p rk sB _ _ inp (n :: stk) s0 s1 n HI0 M01 K01 Hn1).
     apply (MStaleV_same s s0 (fun m => eq_refl) eq_refl). exact HS. }
   (* the compute-phase propagation *)
   match type of H with context [if ?b then ?P1 else ?P2] =>
     destruct (if b then P1 else P2) as [s2| | |] eqn:Epr; try discriminate end.
   set (chg := mx_changed s1 n rc z) in *.
-  assert (P : exists Ex Y, MInvE p rk Ex X inp s2 /\ (forall x, Ex x -> x = n) /\
+  assert (P : exists Ex Y, MInvE p rk sB Ex X inp s2 /\ (forall x, Ex x -> x = n) /\
               s_nodes s2 = s_nodes s1 /\ s_ts s2 = s_ts s1 /\ s_log s2 = s_log s1 /\ s_bwd s2 = s_bwd s1 /\
               (~ Unch s2 n z (fr_tfc fr1) -> Dirt (X ++ Y) s2 n) /\
               (forall y, In y Y -> In y (proj_callers s2 n) /\ nkind y = KProjection /\ y <> n /\
@@ -405,8 +416,8 @@ Proof.
       rewrite Ec, Et in Epr. inversion Epr. subst s2. exists noE, [].
       split; [exact HI1|]. split; [intros x []|]. repeat (split; [reflexivity|]). split.
       - intros _. split.
-        + intros c0 Hc0. exfalso. eapply (mi_target _ _ _ _ _ _ HI1); eauto.
-        + intros b x a _ Hx. exfalso. eapply (mi_target _ _ _ _ _ _ HI1); eauto.
+        + intros c0 Hc0. exfalso. eapply (mi_target _ _ _ _ _ _ _ HI1); eauto.
+        + intros b x a _ Hx. exfalso. eapply (mi_target _ _ _ _ _ _ _ HI1); eauto.
       - split; [intros y []|]. auto. }
     assert (Hrct : rc = true).
     { destruct Hrc as [(-> & _)|[_ Hn]]; [reflexivity|]. rewrite Hn1 in Ei1. congruence. }
@@ -421,12 +432,12 @@ Proof.
       split; [exact HI1|]. split; [intros x []|]. repeat (split; [reflexivity|]). split.
       - intros _. eapply Dirt_of_Stale; [exact HI1|apply MStaleV_Stale; exact HSV| |].
         + unfold thru. intro K. rewrite K in Kfp. discriminate.
-        + intro Hin. destruct (mi_X _ _ _ _ _ _ HI1 n Hin) as [K _]. rewrite K in Kfp. discriminate.
+        + intro Hin. destruct (mi_X _ _ _ _ _ _ _ HI1 n Hin) as [K _]. rewrite K in Kfp. discriminate.
       - split; [intros y []|]. auto. }
     destruct chg eqn:Ec.
     - destruct (c_follow c) eqn:Efo.
       + (* the backward projections follow: dirt stops at the projections *)
-        destruct (MInv_propagate_p p rk Hproj X inp _ s1 n s2 HI1 Epr Hnv1 HNV Kfp) as (A & N1 & N2 & N3 & N4 & UD).
+        destruct (MInv_propagate_p p rk sB Hproj X inp _ s1 n s2 HI1 Epr Hnv1 HNV Kfp) as (A & N1 & N2 & N3 & N4 & UD).
         assert (Hg2 : forall m, get_info s2 m = get_info s1 m) by (intro m; unfold get_info; rewrite N1; reflexivity).
         assert (Hvz : i_value i1 <> z).
         { unfold chg, mx_changed in Ec. rewrite Ei1 in Ec. apply andb_true_iff in Ec. destruct Ec as [_ Ec].
@@ -435,13 +446,13 @@ Proof.
         split; [exact N1|]. split; [exact N3|]. split; [exact N4|]. split; [exact N2|]. split.
         * intros _. eapply Dirt_of_UpDirtyP; eauto. rewrite Hg2. exact Ei1.
         * split; [intros y Hy; eapply ywin_spec; eauto|]. split; [discriminate|]. right. reflexivity.
-      + destruct (MInv_propagate_t p rk X inp _ s1 n s2 HI1 Epr Hnv1 HNV Kfp) as (A & N1 & N2 & N3 & N4 & UD).
+      + destruct (MInv_propagate_t p rk sB X inp _ s1 n s2 HI1 Epr Hnv1 HNV Kfp) as (A & N1 & N2 & N3 & N4 & UD).
         exists noE, []. split; [exact A|]. split; [intros x []|].
         split; [exact N1|]. split; [exact N3|]. split; [exact N4|]. split; [exact N2|]. split.
         * intros _. apply Dirt_of_UpDirty. exact UD.
         * split; [intros y []|]. auto.
     - destruct (mx_tfc_changed s1 n rc z fr1) eqn:Et.
-      + destruct (MInv_propagate_t p rk X inp _ s1 n s2 HI1 Epr Hnv1 HNV Kfp) as (A & N1 & N2 & N3 & N4 & UD).
+      + destruct (MInv_propagate_t p rk sB X inp _ s1 n s2 HI1 Epr Hnv1 HNV Kfp) as (A & N1 & N2 & N3 & N4 & UD).
         exists noE, []. split; [exact A|]. split; [intros x []|].
         split; [exact N1|]. split; [exact N3|]. split; [exact N4|]. split; [exact N2|]. split.
         * intros _. apply Dirt_of_UpDirty. exact UD.
@@ -475,7 +486,9 @@ Proof.
   { destruct Hrc2 as [[Hr _]|[_ Hn]]; [left|right; exact Hn]. intro K.
     apply (MStaleV_not_Solid s1 n (HS1 Hr)). apply (msn_Solid s1 s2 Hg2 N2). exact K. }
   injection H as E1 E2. subst ms s'.
-  destruct (MInv_set_computed p rk Hrk Hproj Ex X Y inp s2 n e l z fr1 chg rc HI2 HEx Hk He Hev Hkl Hfr2 Hnv2 Hrc2)
+  assert (Hlogn : In n (s_log s2)).
+  { rewrite N3. destruct (mr_log _ _ _ M01) as [new [L _]]. rewrite L. apply in_or_app. right. left. reflexivity. }
+  destruct (MInv_set_computed p rk sB Hrk Hproj Ex X Y inp s2 n e l z fr1 chg rc HI2 HEx Hk He Hev Hkl Hfr2 Hnv2 Hlogn Hrc2)
     as [HI3 K23].
   - intros Hst K. exfalso. destruct HnS2 as [K0|K0]; contradiction.
   - exact Hdirt.
@@ -498,8 +511,8 @@ Qed.
 
 (** ** one request *)
 Lemma msound_query_step : forall f,
-  msound_query p rk f -> msound_execute p rk f -> msound_repair p rk f -> msound_backward p rk f ->
-  msound_query p rk (S f).
+  msound_query p rk sB f -> msound_execute p rk sB f -> msound_repair p rk sB f -> msound_backward p rk sB f ->
+  msound_query p rk sB (S f).
 Proof.
   intros f IHq IHx IHr IHb. destruct (mmono_all p Hng f) as (Mq & Mx & Me & Mr & Mb).
   red. intros inp X Y stk c fr n s o fr' ms s' HI Hstk Hroot Hkx Hnp Hpre Hxm HY H.
@@ -527,7 +540,7 @@ Proof.
   pose proof (fast_path_slow _ _ _ _ _ _ Ef) as Hsp.
   destruct (mq_tfc p f stk c' sp n s) as [s1| | |] eqn:Et; try discriminate.
   (* the TFC repair *)
-  assert (T1 : MInv p rk (X ++ Y) inp s1 /\ (is_cq c = true -> MKeeps s s1) /\ MonoR stk s s1 /\
+  assert (T1 : MInv p rk sB (X ++ Y) inp s1 /\ (is_cq c = true -> MKeeps s s1) /\ MonoR stk s s1 /\
                (sp <> SBackward -> x_pedantic c' = true \/ sverified s1 n \/ (X = [] /\ TfcOK s1 n) \/
                                    (X = [] /\ get_info s1 n = None)) /\
                (sp = SBackward -> s1 = s)).
@@ -541,7 +554,7 @@ Proof.
         destruct sp; [exact Hsp| |contradiction]. exfalso. destruct Hsp as [i (Hi & _)]. apply Hno. exists i. auto. }
       destruct c as [|b rv pd prev| |].
       + right. right. right. apply Hroot_case. auto.
-      + destruct (MNPq_caller p rk _ _ inp _ n s HI Hnp) as [N|[N|N]]; [|
+      + destruct (MNPq_caller p rk sB _ _ inp _ n s HI Hnp) as [N|[N|N]]; [|
 |discriminate N].
         * left. fold c' in N. unfold c' in *. rewrite Ec in *. exact N.
         * unfold c' in Hxm'. rewrite Ec in Hxm'. cbn [XMode] in Hxm'. destruct Hxm' as [->|HX].
@@ -555,7 +568,7 @@ Proof.
       { destruct HY as [K|(_ & K & _)]; [exact K|]. exfalso. destruct Hsp as [j (J1 & J2)]. destruct K as [j' [K1 K2]].
         assert (j' = j) by congruence. subst. contradiction. }
       subst X Y stk. cbn [app] in *.
-      destruct (msound_tfc p rk Hng f inp IHq _ _ _ HI (fun t Ht0 => ltac:(rewrite (mi_tfc_fw _ _ _ _ _ _ HI n i t Hi Ht0); discriminate)) Ht)
+      destruct (msound_tfc p rk sB Hng f inp IHq _ _ _ HI (fun t Ht0 => ltac:(rewrite (mi_tfc_fw _ _ _ _ _ _ _ HI n i t Hi Ht0); discriminate)) Ht)
         as (A & C).
       assert (M : MonoR [] s s1) by (eapply mmono_tfc; eauto).
       split; [exact A|]. split.
@@ -567,14 +580,14 @@ Proof.
       intros j Hj F HF. rewrite E, Hi in Hj. inversion Hj. subst j. apply C. exact HF. }
   destruct T1 as (HI1 & K1 & M1 & Hnp1 & Hsb1).
   destruct (mq_process p f stk c' sp n s1) as [[marks s2]| | |] eqn:Ep; try discriminate.
-  assert (P2 : exists Y2, MInv p rk (X ++ Y2) inp s2 /\ (c_follow c = false -> Y2 = []) /\
+  assert (P2 : exists Y2, MInv p rk sB (X ++ Y2) inp s2 /\ (c_follow c = false -> Y2 = []) /\
                  (Y2 = [] \/ has_pending s2 n = true) /\ (forall y, In y Y2 -> In y (proj_callers s2 n)) /\
                  sverified s2 n /\ marks = [] /\ MonoR stk s1 s2 /\ (is_cq c = true -> MKeeps s1 s2)).
   { assert (Hgen : sp <> SBackward ->
         match get_info s1 n with
         | Some i => if (i_verified i =? s_ts s1)%N then Ok ([], s1) else mrepair f stk c' n s1
         | None => mexecute f stk c' n false empty_frame s1 end = Ok (marks, s2) ->
-        exists Y2, MInv p rk (X ++ Y2) inp s2 /\ (c_follow c = false -> Y2 = []) /\
+        exists Y2, MInv p rk sB (X ++ Y2) inp s2 /\ (c_follow c = false -> Y2 = []) /\
                  (Y2 = [] \/ has_pending s2 n = true) /\ (forall y, In y Y2 -> In y (proj_callers s2 n)) /\
                  sverified s2 n /\ marks = [] /\ MonoR stk s1 s2 /\ (is_cq c = true -> MKeeps s1 s2)).
     { intros Hne Ep0.
@@ -658,7 +671,7 @@ Proof.
 Qed.
 
 Lemma msound_all : forall f,
-  msound_query p rk f /\ msound_execute p rk f /\ msound_eval p rk f /\ msound_repair p rk f /\ msound_backward p rk f.
+  msound_query p rk sB f /\ msound_execute p rk sB f /\ msound_eval p rk sB f /\ msound_repair p rk sB f /\ msound_backward p rk sB f.
 Proof.
   induction f as [|f (IHq & IHx & IHe & IHr & IHb)].
   - split; [|split; [|split; [|split]]]; red; intros;
